@@ -18,34 +18,36 @@ theorem expand_equiv (c : CAS) : ∀ (f : Nat) (n : Node), Equiv c (expand c f n
     | dir ch =>
       simp only [expand]
       exact equiv_dir (chrel_map (expand c f) ih ch)
-    | lazy d =>
+    | lazy d m =>
       simp only [expand]
-      cases h : (fetch c [] d).result with
+      cases h : (fetch c [] d m).result with
       | error e => exact Equiv.refl c _
       | ok ch =>
         simp only []
-        have hc : contents c [] (.lazy d) = .ok ch := by simp [contents, h]
+        have hc : contents c [] (.lazy d m) = .ok ch := by simp [contents, h]
         exact (equiv_dir (chrel_map (expand c f) ih ch)).trans (equiv_force hc)
-    | file d x => simp only [expand]; exact Equiv.refl c _
+    | file d x m => simp only [expand]; exact Equiv.refl c _
     | sym t => simp only [expand]; exact Equiv.refl c _
     | loc => simp only [expand]; exact Equiv.refl c _
 
 /-- A successful fetch comes from a well-formed message and yields exactly its entries. -/
-theorem fetch_ok_spec (c : CAS) (d : Dig) (ch : Children) (h : (fetch c [] d).result = .ok ch) :
-    ∃ m, assoc c.dirs d = some (some m) ∧ WellFormed c.hashLen m ∧ ch = specChildren c.hashLen m := by
+theorem fetch_ok_spec (c : CAS) (d : Dig) (mon : Option Path) (ch : Children)
+    (h : (fetch c [] d mon).result = .ok ch) :
+    ∃ m, assoc c.dirs d = some (some m) ∧ WellFormed c.hashLen m ∧
+      ch = (specChildren c.hashLen m).map (annotate mon) := by
   have hF : d ∉ ([] : List Dig) := by simp
   cases hm : assoc c.dirs d with
-  | none => simp [fetch, hm] at h
+  | none => simp [fetch, fetchBase, hm] at h
   | some o =>
     cases o with
-    | none => simp [fetch, hm] at h
+    | none => simp [fetch, fetchBase, hm] at h
     | some m =>
       refine ⟨m, rfl, ?_⟩
       by_cases hw : WellFormed c.hashLen m
-      · rw [fetch_wellFormed c [] d m hF hm hw] at h
+      · rw [fetch_wellFormed c [] d mon m hF hm hw] at h
         simp only [Except.ok.injEq] at h
         exact ⟨hw, h.symm⟩
-      · obtain ⟨k, hk⟩ := fetch_malformed c [] d m hF hm hw
+      · obtain ⟨k, hk⟩ := fetch_malformed c [] d mon m hF hm hw
         rw [hk] at h
         cases h
 
@@ -62,8 +64,8 @@ theorem mem_conv {α : Type} (nameOf : α → Name) (mk : α → Option Node) (e
 /-- Children produced by a fetch are files, symlinks or lazy directories named by the message. -/
 theorem mem_specChildren (hl : Nat) (m : DirMsg) (x : Name) (v : Node)
     (h : (x, v) ∈ specChildren hl m) :
-    (∃ e ∈ m.dirs, ∃ d', parseDigest hl e.digest = some d' ∧ v = .lazy d') ∨
-    (∃ d' ex, v = .file d' ex) ∨ (∃ t, v = .sym t) := by
+    (∃ e ∈ m.dirs, ∃ d', parseDigest hl e.digest = some d' ∧ v = .lazy d' none) ∨
+    (∃ d' ex, v = .file d' ex none) ∨ (∃ t, v = .sym t) := by
   simp only [specChildren, List.mem_append] at h
   rcases h with (h | h) | h
   · obtain ⟨e, he, _, hv⟩ := mem_conv _ _ _ _ _ h
@@ -95,7 +97,18 @@ def Acyclic (c : CAS) (rank : Dig → Nat) : Prop :=
 directories only): what is lazy in an eager tree is a directory that cannot be
 loaded (malformed or absent). -/
 def Eager (c : CAS) (n : Node) : Prop :=
-  ∀ p d, rawAt n p = some (.lazy d) → ∃ e, (fetch c [] d).result = .error e
+  ∀ p d m, rawAt n p = some (.lazy d m) → ∃ e, (fetch c [] d m).result = .error e
+
+/-- Children of a (possibly wrapped) fetch: annotated entries of the message. -/
+theorem mem_fetched (hl : Nat) (mon : Option Path) (m : DirMsg) (x : Name) (v : Node)
+    (h : (x, v) ∈ (specChildren hl m).map (annotate mon)) :
+    (∃ e ∈ m.dirs, ∃ d' a, parseDigest hl e.digest = some d' ∧ v = .lazy d' a) ∨
+    (∃ d' ex a, v = .file d' ex a) ∨ (∃ t, v = .sym t) := by
+  obtain ⟨⟨y, w⟩, hw, heq⟩ := List.mem_map.1 h
+  rcases mem_specChildren hl m y w hw with ⟨e, he, d', hp, rfl⟩ | ⟨d', ex, rfl⟩ | ⟨t, rfl⟩
+  · left; simp only [annotate, Prod.mk.injEq] at heq; exact ⟨e, he, d', _, hp, heq.2.symm⟩
+  · right; left; simp only [annotate, Prod.mk.injEq] at heq; exact ⟨d', ex, _, heq.2.symm⟩
+  · right; right; simp only [annotate, Prod.mk.injEq] at heq; exact ⟨t, heq.2.symm⟩
 
 theorem lookup_map (g : Node → Node) (ch : Children) (x : Name) :
     lookup (ch.map fun e => (e.1, g e.2)) x = (lookup ch x).map g := by
@@ -115,22 +128,25 @@ theorem lookup_mem (ch : Children) (x : Name) (v : Node) (h : lookup ch x = some
     · simp only [lookup, hn, if_false] at h; exact List.mem_cons_of_mem _ (ih h)
 
 theorem expand_eager (c : CAS) (rank : Dig → Nat) (hr : Acyclic c rank) :
-    ∀ (f : Nat) (d : Dig), rank d < f → Eager c (expand c f (.lazy d)) := by
+    ∀ (f : Nat) (d : Dig) (mon : Option Path), rank d < f → Eager c (expand c f (.lazy d mon)) := by
   intro f
   induction f with
-  | zero => intro d h; omega
+  | zero => intro d mon h; omega
   | succ f ih =>
-    intro d hd p d0 hp
+    intro d mon hd p d0 m0 hp
     simp only [expand] at hp
-    cases h : (fetch c [] d).result with
+    cases h : (fetch c [] d mon).result with
     | error e =>
       simp only [h] at hp
       cases p with
-      | nil => simp only [rawAt, Option.some.injEq, Node.lazy.injEq] at hp; subst hp; exact ⟨e, h⟩
+      | nil =>
+        simp only [rawAt, Option.some.injEq, Node.lazy.injEq] at hp
+        obtain ⟨rfl, rfl⟩ := hp
+        exact ⟨e, h⟩
       | cons x rest => simp [rawAt] at hp
     | ok ch =>
       simp only [h] at hp
-      obtain ⟨m, hm, _, hch⟩ := fetch_ok_spec c d ch h
+      obtain ⟨m, hm, _, hch⟩ := fetch_ok_spec c d mon ch h
       cases p with
       | nil => simp [rawAt] at hp
       | cons x rest =>
@@ -141,11 +157,11 @@ theorem expand_eager (c : CAS) (rank : Dig → Nat) (hr : Acyclic c rank) :
           simp only [hx, Option.map] at hp
           have hmem := lookup_mem ch x v hx
           rw [hch] at hmem
-          rcases mem_specChildren _ _ _ _ hmem with ⟨e, he, d', hp', rfl⟩ | ⟨d', ex, rfl⟩ | ⟨t, rfl⟩
+          rcases mem_fetched _ _ _ _ _ hmem with ⟨e, he, d', a, hp', rfl⟩ | ⟨d', ex, a, rfl⟩ | ⟨t, rfl⟩
           · have hlt : rank d' < f := by
               have := hr d m hm e he d' hp'
               omega
-            exact ih d' hlt rest d0 hp
+            exact ih d' a hlt rest d0 m0 hp
           · cases f <;> cases rest <;> simp [expand, rawAt] at hp
           · cases f <;> cases rest <;> simp [expand, rawAt] at hp
 
